@@ -86,7 +86,7 @@ def member_trace(tid, member_case, rec_member, *, collecting, records):
     }
     return {
         "tid": tid,
-        "prog": member_case["prog"],
+        "prog": runtrace.strip_private(member_case["prog"]),
         "file": lang.enc_file(records),
         "cfg": cfg,
         "events": evs,
